@@ -52,8 +52,13 @@ def generate(tape, tier="quick"):
                 b["axes"] = [list(x) for x in b["axes"]]
                 b["axes"][k] = [x + 0.25 for x in b["axes"][k]]
     coef = [tape.choice([0.0, 1.0, 5.0])] + [tape.choice([1.0, 10.0, 100.0, -2.0]) for _ in range(3)]
-    return {"engine": "G2", "a": a, "b": b, "rel": rel, "coef": coef, "masked": tape.chance(1, 3),
-            "scale": tape.chance(1, 4), "npub": tape.rng_int(1, 3), "static": tape.chance(1, 4), "units": tape.choice([("m", "m"), ("m", "km"), ("", "")])}
+    sc = {"engine": "G2", "a": a, "b": b, "rel": rel, "coef": coef, "masked": tape.chance(1, 3),
+          "scale": tape.chance(1, 4), "npub": tape.rng_int(1, 3), "static": tape.chance(1, 4), "units": tape.choice([("m", "m"), ("m", "km"), ("", "")])}
+    if sc["masked"]:
+        # what the mask of each publication looks like: cells chosen by a rule on the coordinates, a masked array that
+        # masks nothing and therefore has no mask array (np.ma.masked_where on a step without hits), an all-False array
+        sc["mask_modes"] = [tape.weighted([("rule", 3), ("nomask", 2), ("allfalse", 1)]) for _ in range(3)]
+    return sc
 
 
 def execute(sc):
@@ -115,9 +120,14 @@ def execute(sc):
         kk = 0 if static else k
         data = fa + 1000.0 * kk
         mask_a = None
-        if sc["masked"]:
+        mode = (sc.get("mask_modes") or ["rule"] * 3)[kk] if sc["masked"] else None
+        if mode == "rule":
             mask_a = (np.round(fa * 7.3) % 3 == 0)
             payload = np.ma.array(data.copy(), mask=mask_a)
+        elif mode == "nomask":
+            payload = np.ma.masked_where(data < -1e30, data.copy())
+        elif mode == "allfalse":
+            payload = np.ma.array(data.copy(), mask=np.zeros(data.shape, bool))
         else:
             payload = data.copy()
         try:
@@ -135,7 +145,7 @@ def execute(sc):
             break
         if sc["masked"]:
             # the mask travels with the locations: masked where the field-derived rule says so at B's coordinates
-            want_mask = (np.round(fb * 7.3) % 3 == 0)
+            want_mask = (np.round(fb * 7.3) % 3 == 0) if mode == "rule" else np.zeros(fb.shape, bool)
             gm = np.ma.getmaskarray(arr[0])
             if not np.array_equal(gm, want_mask):
                 v("transform-located", "mask", f"publication {k}: mask not carried to the same physical locations")
